@@ -39,22 +39,36 @@ func VP_C15_AuxAndBystanders() {
 	first := refRecord(set, 1600000000, salt, refDigest(set, pw, salt))
 	aux := vpAux()
 	admin := vpChoose("admin", 2) == 1
+	// the target's name may itself contain what looks like an extension (dots are legal in names);
+	// the users whose names differ from it only in that part are bystanders like any other
+	u := []string{"u", "ann.user.x", "ann.admin.x"}[vpChoose("target-name", 3)]
 	ext, oext := ".user", ".admin"
 	if admin {
 		ext, oext = ".admin", ".user"
 	}
-	if os.WriteFile(filepath.Join(base, "u"+ext), []byte(first+aux), 0600) != nil {
+	if os.WriteFile(filepath.Join(base, u+ext), []byte(first+aux), 0600) != nil {
 		panic("setup")
 	}
 	by := vpStr("bystander", 3)
 	if os.WriteFile(filepath.Join(base, "v.user"), []byte(by), 0600) != nil || os.Mkdir(filepath.Join(base, ".tmp"), 0700) != nil {
 		panic("setup")
 	}
+	var twins []string
+	for _, t := range []string{"ann.user.x", "ann.admin.x"} {
+		if t != u {
+			for _, e := range []string{".user", ".admin"} {
+				twins = append(twins, t+e)
+				if os.WriteFile(filepath.Join(base, t+e), []byte(by), 0600) != nil {
+					panic("setup")
+				}
+			}
+		}
+	}
 	switch vpChoose("op", 2) {
 	case 0:
 		npw := vpStr("newpw", 2)
-		vpAssert("update-ok", d.UpdateUser("u", npw) == nil)
-		raw, err := os.ReadFile(filepath.Join(base, "u"+ext))
+		vpAssert("update-ok", d.UpdateUser(u, npw) == nil)
+		raw, err := os.ReadFile(filepath.Join(base, u+ext))
 		vpAssert("target-still-there", err == nil)
 		f, rest, ok := vpSplitRecord(string(raw))
 		vpAssert("new-first-line-wellformed", ok)
@@ -62,20 +76,24 @@ func VP_C15_AuxAndBystanders() {
 		if ok {
 			vpAssert("rewritten-under-default-set", f[0] == refFormatID(def))
 		}
-		_, oerr := os.Stat(filepath.Join(base, "u"+oext))
+		_, oerr := os.Stat(filepath.Join(base, u+oext))
 		vpAssert("extension-unchanged", oerr != nil)
-		r := vpAuth(d, "u", npw)
+		r := vpAuth(d, u, npw)
 		vpAssert("new-password-works", r.ok && r.admin == admin)
 	case 1:
-		vpAssert("setadmin-ok", d.SetAdmin("u", !admin) == nil)
-		raw, err := os.ReadFile(filepath.Join(base, "u"+oext))
+		vpAssert("setadmin-ok", d.SetAdmin(u, !admin) == nil)
+		raw, err := os.ReadFile(filepath.Join(base, u+oext))
 		vpAssert("record-moved-to-other-extension", err == nil)
 		vpAssert("whole-record-preserved", string(raw) == first+aux)
-		_, oerr := os.Stat(filepath.Join(base, "u"+ext))
+		_, oerr := os.Stat(filepath.Join(base, u+ext))
 		vpAssert("old-name-gone", oerr != nil)
 	}
 	b2, berr := os.ReadFile(filepath.Join(base, "v.user"))
 	vpAssert("bystander-untouched", berr == nil && string(b2) == by)
+	for _, t := range twins {
+		b3, terr := os.ReadFile(filepath.Join(base, t))
+		vpAssert("similarly-named-users-untouched", terr == nil && string(b3) == by)
+	}
 	ents, _ := os.ReadDir(filepath.Join(base, ".tmp"))
 	vpAssert("work-area-empty-afterwards", len(ents) == 0)
 	vpCover("end")
